@@ -39,6 +39,8 @@ type verdict struct {
 	Real  *engine.Observed
 	Model *engine.Observed
 	Sync  *engine.Observed
+	// cancelled: number of invocations reached after the cancellation (cancel cases)
+	cancelled int
 }
 
 func (v verdict) key() string { return v.Class + ":" + v.Cat }
@@ -135,7 +137,47 @@ func (h *harness) judge(c *engine.Case, modelReply string) verdict {
 	return v
 }
 
+// judgeCancel evaluates a case whose k-th resolver cancels the context (engine/cancel.go): the
+// model-free oracle on the run itself, then the reduction — the model's run of the request in which
+// the invocations reached after the cancellation fail synchronously — against the implementation.
+func (h *harness) judgeCancel(c *engine.Case) verdict {
+	real, err := engine.RunReal(c)
+	if err != nil {
+		return verdict{Class: "harness", Cat: "compile", What: err.Error()}
+	}
+	v := verdict{Real: real}
+	if m := engine.CancelSelfCheck(c, real); m != "" {
+		cat, msg := engine.SplitCat(m)
+		v.Class, v.Cat, v.What = "property", "cancel-"+cat, "cancelled run: "+msg
+		if cat == "crash" {
+			v.Class = "crash"
+		}
+		return v
+	}
+	if h.model == nil {
+		return v
+	}
+	d, K, mo, err := engine.CancelReduce(c, h.model.Ask)
+	if err != nil {
+		v.Class, v.Cat, v.What = "correspondence", "cancel-driver", err.Error()
+		return v
+	}
+	v.Model = mo
+	v.cancelled = len(K)
+	if m := engine.CompareCancelled(real, mo, K); m != "" {
+		v.Class, v.Cat, v.What = "correspondence", "cancel", fmt.Sprintf("cancelled run vs the model's run of the request with %d cancelled invocations failing synchronously: %s", len(K), m)
+	} else if m := engine.SelfCheck(d, real); m != "" {
+		v.Class, v.Cat, v.What = "correspondence", "cancel-oracle", "cancelled run against the oracles of the transformed request: "+m
+	} else if m := engine.SpecCheck(d, real, mo); m != "" {
+		v.Class, v.Cat, v.What = "correspondence", "spec", "Lean reference semantics of the transformed request vs implementation: "+m
+	}
+	return v
+}
+
 func (h *harness) judgeAsk(c *engine.Case) verdict {
+	if c.CancelAt > 0 {
+		return h.judgeCancel(c)
+	}
 	reply := ""
 	if h.model != nil {
 		r, err := h.model.Ask(c.ModelLine())
@@ -165,6 +207,12 @@ func (h *harness) record(c *engine.Case, v verdict, source string) {
 		if c.Mutation {
 			h.run.Count("op:mutation")
 		}
+		if c.CancelAt > 0 {
+			h.run.Count(fmt.Sprintf("cancel: fields reached after the cancellation=%d", min(v.cancelled, 4)))
+		}
+	}
+	if c.CancelAt > 0 {
+		h.run.Oblige("context cancellation: no resolver called after the cancellation, `context canceled` only for fields whose resolver was not called, single-run oracles; the cancelled run = the model's run of the request with the fields reached after the cancellation failing synchronously", "oracle", 1, v.Class == "", v.What)
 	}
 	h.run.Oblige("executor correspondence (data, ordered errors, idle rounds, promises created) vs Lean ExecAsync", "correspondence", 1, v.Class != "correspondence", v.What)
 	h.run.Oblige("oracle: every schedule = all-sync run on data and required errors; no duplicate error; no blank/missing key; rounds ≤ promises; no crash", "oracle", 1, v.Class != "property" && v.Class != "crash", v.What)
@@ -216,7 +264,7 @@ func (h *harness) batch(cs []*engine.Case, source string) {
 	if h.model != nil {
 		lines := make([]string, len(cs))
 		for i, c := range cs {
-			lines[i] = c.ModelLine()
+			lines[i] = c.ModelLine() // (unused for cancel cases, which ask the model themselves)
 		}
 		r, err := h.model.AskAll(lines)
 		if err != nil {
@@ -227,6 +275,10 @@ func (h *harness) batch(cs []*engine.Case, source string) {
 		}
 	}
 	for i, c := range cs {
+		if c.CancelAt > 0 {
+			h.record(c, h.judgeCancel(c), source)
+			continue
+		}
 		h.record(c, h.judge(c, replies[i]), source)
 	}
 }
@@ -421,6 +473,19 @@ func (h *harness) random() {
 			if i < 2 && k == 0 {
 				run.Sample(map[string]any{"document": c.Document(), "case": c})
 			}
+		}
+		if i%4 == 0 {
+			// the same request with the context cancelled by one of its resolvers
+			c := base.Clone()
+			for _, f := range c.Invocations() {
+				f.Mode = hx.Pick(r, []string{"sync", "promise", "promise", "pre"})
+			}
+			c.Schedule = engine.GenSchedule(r, r.Range(0, 10))
+			if r.Bool() {
+				c.Syntax = r.Uint64() | 1
+			}
+			c.CancelAt = r.Range(1, max(1, (len(c.Invocations())+1)/2))
+			pending = append(pending, c)
 		}
 		if len(pending) >= 2000 {
 			h.batch(pending, "rand")
